@@ -230,8 +230,13 @@ pub fn prop(tier: Tier, seed: u64) -> Prop {
     );
 
     p.rule = "14 operations (7 resize variants: Nearest / Lanczos3 / Box / SuperSampling / Interpolation with alpha on/off and fractional crops; alpha multiply/divide two-image and in place; forward map; backward map in place; component conversion) x size pairs x 8 placements x 13 pixel types x back-ends, each executed through every source container kind (owned Image, borrowed slice, ImageRef::new / from_pixels, CroppedImage of a reference / of an owned parent, TypedImageRef, owned TypedImage, TypedCroppedImage from_ref / new / nested) and every destination kind (owned, Vec/slice with spare capacity, exact slice, CroppedImageMut, typed slice / spare / from_buffer, TypedCroppedImageMut new / from_ref / nested) and both entry points, in buffers that end at a guard page; the destination rectangle must be byte-identical to the ImageRef -> borrowed-slice baseline".into();
+    // rayon leg: with the `rayon` feature the container families split into bands through different
+    // code (slice splits vs. the trait defaults vs. cropped views); it lives in the real-rayon workspace
+    let t = tier.name();
+    p.extra.push(Box::new(move |_| crate::props::c08::run_engine_for("C13", crate::props::c08::RAYON_REL, &["c13", t], &[], "containers under real rayon")));
     p.bounds = json!({"size_pairs": sizes.len(), "placements": PLACES.len()});
     p.assumptions = vec![
+        "rayon leg: the crate built with feature `rayon` and the real rayon (pool sizes 2..7 quick, 2..32 thorough); 9 bodies x {U8, U8x4, U16x2, F32} x {portable, AVX2} x shapes x source kinds {TypedImageRef, owned TypedImage, cropped view of either} x destination kinds {TypedImage, harness view on the trait defaults, cropped views of both}: every combination must give the bytes of (borrowed source, plain destination, pool of one); the OS schedule is uncontrolled there (schedule independence itself is C08's loom exploration)".into(),
         "container kinds are varied pairwise (every source kind against the plain destination, every destination kind against the plain source, plus nested->nested and crop->crop)".into(),
         "typed kinds are instantiated for 6 of the 13 pixel types (U8, U8x3, U8x4, U16x2, I32, F32x3)".into(),
     ];
